@@ -78,7 +78,8 @@ CHECKS = {
             "xstack_effect and make_std_api().stack_effect equal dis.stack_effect on every enumerated pair "
             "CPython accepts; exhaustive over 0..65535 in the thorough tier.",
             "dis.stack_effect of the matching CPython is ground truth; operands >= 2^30 excluded (C int overflow "
-            "in the reference); the sweep is recomputed inside hosts 3.8-3.13 and must not depend on the host",
+            "in the reference); the sweep is recomputed inside hosts 3.8-3.13 and must not depend on the host; 3.0-3.5 "
+            "(no interpreter): same-named opcodes judged by CPython 3.6, the few with changed meaning excepted",
             "DESIGN.md §4 C15"),
     "C06": ("Hypothesis-generated headers (every release magic x 32-bit flag word x 32/64-bit fields) with marker "
             "payloads + real py_compile output in all PEP 552 modes; oracle = format model validated against py_compile",
